@@ -12,10 +12,12 @@ from ..values import Arr, Bound, Inst, Njit, RaisedInAnalysed, Unsupported, to_p
 from .simtools import array_attr_names
 
 IBFI = "sopht.simulator.immersed_body.immersed_body_flow_interaction"
+CASE_SPLIT = "decisions"     # branches on free inputs are analysed both ways (regions.run_under_size_cases)
 
 STUB = '''
 import numpy as np
 from sopht.simulator.immersed_body.immersed_body_forcing_grid import ImmersedBodyForcingGrid
+
 
 
 class StubForcingGrid(ImmersedBodyForcingGrid):
@@ -466,6 +468,18 @@ def run(S, tier, rep):
                 # the forwarding violation above is the finding)
     who_may_write(S, rep)
     spacing_from_current_state(S, rep)
+    # the interpolated flow velocity is taken at the markers: an explicit coordinate shift of the Eulerian grid must reach the
+    # communicator unchanged (decided with C06's rule on the forcing class)
+    from ..report import Report as _R
+    from .c06 import grid_agreement
+    tmp = _R("C10", "other")
+    grid_agreement(S, tmp)
+    for o in tmp.obligations:
+        if "explicit grid shift" in o["instance"]:
+            o = dict(o, rule="C10.d")
+            if "key" in o:
+                o["key"] = o["key"].replace("C06.d", "C10.d")
+            rep.obligations.append(o)
     rep.require_min("C10.a", 30)
     rep.require_min("C10.b", 20)
     rep.require_min("C10.d", 8)
